@@ -107,7 +107,7 @@ func (vc *VC) race(o *Obl, timeoutS int, seed int) {
 	d := o.TimeS
 	type res struct {
 		st, out, name string
-		d            float64
+		d             float64
 	}
 	ctx2, cancel2 := context.WithTimeout(context.Background(), time.Duration(timeoutS+2)*time.Second)
 	defer cancel2()
@@ -261,4 +261,71 @@ func (vc *VC) proveNow(guard, goal string) bool {
 	}
 	vc.proveCache[key] = st == "unsat"
 	return st == "unsat"
+}
+
+// candidateModel drops every quantified assertion from a query (prelude axioms, heap invariants)
+// and asks z3 for a model of the rest. The result is only a candidate: it is believed only after
+// it satisfies the precondition and violates the clause on the real code (replay.go).
+func candidateModel(query string) string {
+	if query == "" {
+		return ""
+	}
+	var b strings.Builder
+	for _, f := range topLevelForms(query) {
+		if strings.HasPrefix(f, "(assert") && (strings.Contains(f, "(forall ") || strings.Contains(f, "(exists ")) {
+			continue
+		}
+		if strings.HasPrefix(f, "(check-sat") || strings.HasPrefix(f, "(get-") {
+			continue
+		}
+		b.WriteString(f)
+		b.WriteByte('\n')
+	}
+	b.WriteString("(check-sat)\n(get-model)\n")
+	ctx, cancel := context.WithTimeout(context.Background(), 15*time.Second)
+	defer cancel()
+	c := solverConfigs(10, 0)[0]
+	st, out, _ := runSolver(ctx, c, b.String())
+	if st != "sat" {
+		return ""
+	}
+	if len(out) > 20000 {
+		out = out[:20000] + "\n...truncated"
+	}
+	return out
+}
+
+func topLevelForms(text string) []string {
+	var forms []string
+	depth, start := 0, -1
+	for i := 0; i < len(text); i++ {
+		switch c := text[i]; c {
+		case ';':
+			for i < len(text) && text[i] != '\n' {
+				i++
+			}
+		case '|':
+			i++
+			for i < len(text) && text[i] != '|' {
+				i++
+			}
+		case '"':
+			i++
+			for i < len(text) && text[i] != '"' {
+				i++
+			}
+		case '(':
+			if depth == 0 {
+				start = i
+			}
+			depth++
+		case ')':
+			depth--
+			if depth == 0 && start >= 0 {
+				forms = append(forms, text[start:i+1])
+				start = -1
+			}
+		}
+	}
+	return forms
 }
